@@ -121,3 +121,25 @@ add("C11", "c11",
               dict(name="exh", mode="sched", run="^TestExhaustive$", shards=1, timeout=3000),
               dict(name="race", mode="race", run="^TestRaced$", shards=4, scale=10, timeout=3000)]},
     replay_modes=["sched", "race"])
+
+# ---- C01 SyncRing (controlled schedules + race detector) ------------------------------------------
+add("C01", "c01",
+    {"jobs": [dict(name="sched", mode="sched", run="^TestProps$", shards=4, scale=1, timeout=600),
+              dict(name="exh", mode="sched", run="^TestExhaustive$", shards=1, timeout=600),
+              dict(name="race", mode="race", run="^TestRaced$", shards=2, scale=1, timeout=600)]},
+    {"jobs": [dict(name="sched", mode="sched", run="^TestProps$", shards=12, scale=15, timeout=3000),
+              dict(name="exh", mode="sched", run="^TestExhaustive$", shards=1, timeout=3000),
+              dict(name="race", mode="race", run="^TestRaced$", shards=4, scale=10, timeout=3000)]},
+    replay_modes=["sched", "race"])
+
+# ---- C12 SafeKV (controlled schedules + race detector) ------------------------------------------
+add("C12", "c12",
+    {"jobs": [dict(name="sched", mode="sched", run="^TestProps$", shards=4, scale=1, timeout=600),
+              dict(name="exh", mode="sched", run="^TestExhaustive$", shards=1, timeout=600),
+              dict(name="race", mode="race", run="^TestRaced$", shards=2, scale=1, timeout=600),
+              dict(name="loops", mode="race", run="^TestRacedLoops$", shards=2, scale=1, timeout=600)]},
+    {"jobs": [dict(name="sched", mode="sched", run="^TestProps$", shards=10, scale=15, timeout=3000),
+              dict(name="exh", mode="sched", run="^TestExhaustive$", shards=1, timeout=3000),
+              dict(name="race", mode="race", run="^TestRaced$", shards=3, scale=10, timeout=3000),
+              dict(name="loops", mode="race", run="^TestRacedLoops$", shards=2, scale=10, timeout=3000)]},
+    replay_modes=["sched", "race"])
